@@ -64,15 +64,17 @@ pub fn convert_node(ast: &ASTTy, imp: &mut Imports, state: &State, ctx: &Context
             statements: convert_vec(statements, imp, state, ctx)?,
         },
 
-        NodeTy::Int { lit } => Core::Int { int: lit.clone() },
+        NodeTy::Int { lit } => Core::Int {
+            int: decimal_integer(lit),
+        },
         NodeTy::Real { lit } => Core::Float { float: lit.clone() },
         NodeTy::ENum { num, exp } => Core::ENum {
-            num: num.clone(),
-            exp: if exp.is_empty() {
-                String::from("0")
+            num: if num.contains('.') {
+                num.clone()
             } else {
-                exp.clone()
+                decimal_integer(num)
             },
+            exp: decimal_integer(exp),
         },
         NodeTy::DocStr { lit } => Core::DocStr {
             string: lit.clone(),
@@ -321,6 +323,16 @@ pub fn convert_node(ast: &ASTTy, imp: &mut Imports, state: &State, ctx: &Context
     };
 
     Ok(core)
+}
+
+/// Python does not accept leading zeros in a decimal integer literal (`007`), Mamba does.
+fn decimal_integer(lit: &str) -> String {
+    let digits = lit.trim_start_matches('0');
+    if digits.is_empty() {
+        String::from("0")
+    } else {
+        String::from(digits)
+    }
 }
 
 fn append_assign(core: &Core, assign_to: &Core, name: &Option<Name>, imp: &mut Imports) -> Core {
